@@ -34,7 +34,7 @@ class SimClock:
         return v
 
     def time(self) -> float:
-        return self.ns / 1e9
+        return self.time_ns() / 1e9
 
     def set_filetime(self, ft: int, sub_ns: int = 0) -> None:
         self.ns = (ft - FILETIME_EPOCH) * 100 + sub_ns
@@ -192,6 +192,12 @@ class World:
             setattr(obj, name, val)
 
         patch(dclient, "time", _TimeShim(self.clock))
+        import time as _time
+
+        # every reading of the wall clock inside the world is a reading of the simulated clock (library modules other than
+        # _client, pyspnego's NTLM timestamps, ...); time.monotonic / perf_counter are left alone (the loop has its own time)
+        patch(_time, "time_ns", self.clock.time_ns)
+        patch(_time, "time", self.clock.time)
         patch(socket, "create_connection", self.connect_sync)
         import asyncio
 
